@@ -62,6 +62,15 @@ def run_property(prop: str, tier: str, seed: int, only_rule: str | None = None) 
                               found=f"{exc} at {e.where}", explanation=f"{qual or file}: the path analysed by this rule raises {exc} for every input "
                               f"(an index beyond the end of a sequence the code builds, a name or local that is never bound, a division by a constant zero, an "
                               f"exhausted look-up): the calculation cannot complete", instance=f"{qual or file}: raises {exc}")
+            elif exc == "EmptySelection":
+                # raises for part of the valid input domain (named in the reason): the selection by a data condition need not have exactly one element
+                file, _, line = (e.where or "").partition(":")
+                line = int(line) if line.isdigit() else 0
+                qual = function_at(model, file, line)
+                ctx.violation("raises.EmptySelection", Where(file or "cij", qual, line), expected="the analysed path completes for every valid input",
+                              found=f"ValueError at {e.where} whenever the selection is empty", explanation=f"{qual or file}: .item() (or an unpacking of one element) is applied to the positions "
+                              f"selected by a condition on the temperature grid; a grid that does not contain T = 0 (T_MIN > 0, schema-valid) selects nothing and the call raises "
+                              f"ValueError: the calculation cannot complete", instance=f"{qual or file}: raises on an empty selection")
             else:
                 ctx.error(e.reason, e.where)
         except RecursionError:
